@@ -799,7 +799,14 @@ long d_string_replace_text_in_range(DString * d, size_t pos, size_t len, const c
 			d_string_insert(d, match - d->str, replace);
 
 			delta += change;
-			stop += change;
+
+			// The end of the range moves with the text, but must not wrap below zero
+			if ((change < 0) && (stop < (size_t)(-change))) {
+				stop = 0;
+			} else {
+				stop += change;
+			}
+
 			match = strstr(d->str + pos + len_r, original);
 		}
 
